@@ -176,6 +176,64 @@ def parse_tsan_logs(paths):
     return found
 
 
+MEMCHECK_KINDS = [
+    (r"Conditional jump or move depends on uninitialised value", "uninitialised-condition"),
+    (r"Use of uninitialised value of size", "uninitialised-use"),
+    (r"Syscall param .* (?:uninitialised|unaddressable)", "uninitialised-syscall-param"),
+    (r"Invalid read of size", "invalid-read"),
+    (r"Invalid write of size", "invalid-write"),
+    (r"Invalid free|Mismatched free", "invalid-free"),
+    (r"Source and destination overlap", "overlap"),
+    (r"Jump to the invalid address|Process terminating with default action of signal", "fatal"),
+]
+
+
+def parse_memcheck_logs(paths):
+    """valgrind memcheck logs -> dict key_suffix -> (count, excerpt).  One key per error kind and innermost
+    frame in SDK code (function name, line numbers stripped)."""
+    found = {}
+    for p in paths:
+        try:
+            txt = open(p, errors="replace").read()
+        except OSError:
+            continue
+        lines = [re.sub(r"^==\d+==\s?", "", ln) for ln in txt.splitlines()]
+        i = 0
+        while i < len(lines):
+            kind = None
+            for rx, k in MEMCHECK_KINDS:
+                if re.search(rx, lines[i]):
+                    kind = k
+                    break
+            if not kind:
+                i += 1
+                continue
+            j = i + 1
+            frames = []
+            while j < len(lines) and re.match(r"^\s+(at|by) 0x", lines[j]):
+                frames.append(lines[j])
+                j += 1
+            frame = None
+            first = None
+            for fr in frames:
+                m = re.match(r"^\s+(?:at|by) 0x[0-9A-Fa-f]+: (.+?) \(([^()]*)\)\s*$", fr)
+                if not m:
+                    continue
+                fn, where = m.group(1), m.group(2)
+                if where.startswith("in /usr") or "vgpreload" in where:
+                    continue
+                if first is None:
+                    first = norm_fn(fn)
+                if "opentelemetry::" in fn and "vf::" not in fn and "vfp::" not in fn:
+                    frame = norm_fn(fn)
+                    break
+            key = "memcheck:%s/%s" % (kind, frame or ("harness:" + (first or "?")))
+            c, ex = found.get(key, (0, None))
+            found[key] = (c + 1, ex or "\n".join(lines[i:j][:20]))
+            i = j
+    return found
+
+
 # --------------------------------------------------------------------------------------------
 # running one shard with crash resume
 # --------------------------------------------------------------------------------------------
@@ -254,7 +312,7 @@ def run_shard(prop, run, exe, tier, seed, cases, start, shard, nshards, outdir, 
                 os.unlink(os.path.join(outdir, fn))
             except OSError:
                 pass
-        for fn in glob.glob(os.path.join(outdir, "tsan.*")):
+        for fn in glob.glob(os.path.join(outdir, "tsan.*")) + glob.glob(os.path.join(outdir, "memcheck.*")):
             os.unlink(fn)
         cmd = [exe, "--seed", str(seed), "--cases", str(cases), "--start", str(cur_start),
                "--shard", "%d/%d" % (shard, nshards), "--tier", tier, "--out", outdir]
@@ -266,6 +324,10 @@ def run_shard(prop, run, exe, tier, seed, cases, start, shard, nshards, outdir, 
             cmd += ["--param", "%s=%s" % (k, v)]
         for k, v in ((run.get("tier_params") or {}).get(tier) or {}).items():
             cmd += ["--param", "%s=%s" % (k, v)]
+        if run.get("wrapper") == "memcheck":
+            # the uninstrumented build under valgrind: definedness of every value a branch or address depends on
+            cmd = ["valgrind", "--tool=memcheck", "--leak-check=no", "--num-callers=16", "--error-limit=no", "-q",
+                   "--error-exitcode=0", "--log-file=%s/memcheck.%%p" % outdir] + cmd
         errpath = os.path.join(outdir, "stderr.txt")
         with open(errpath, "wb") as ef:
             p = subprocess.Popen(cmd, stdout=ef, stderr=ef, env=child_env(run["flavour"], outdir, run.get("env")),
@@ -306,6 +368,9 @@ def run_shard(prop, run, exe, tier, seed, cases, start, shard, nshards, outdir, 
                                    "run": run["name"], "count": cnt})
             if "ERROR: ThreadSanitizer" in ex:
                 tsan_fatal = True
+        for key, (cnt, ex) in parse_memcheck_logs(glob.glob(os.path.join(outdir, "memcheck.*"))).items():
+            res.violations.append({"key": "%s/%s" % (prop, key), "detail": ex, "case": None, "seed": seed,
+                                   "run": run["name"], "count": cnt})
         final = bool(result and result.get("final"))
         if result:
             merge_counts(res.counters, result.get("counters"))
